@@ -143,6 +143,36 @@ def propCarry : List Nat → Nat → List Nat
   | o :: os, c => let r := adc o 0 c; r.1 :: propCarry os r.2
   | [], _ => []
 
+/-- `while i < n { (out[i + s], carry) = out[i + s].adc(scratch[i], carry); i += 1 }` over the slice
+    `z` of scratch: adds `z` into `out[s .. s + z.len())`, returns the buffer and the carry -/
+def addAt (out : List Nat) (s : Nat) (z : List Nat) (c : Nat) : List Nat × Nat :=
+  (setRange out s (uadc (getRange out s z.length) z c).1, (uadc (getRange out s z.length) z c).2)
+
+/-- the six addition loops shared by `karatsuba_mul_limbs` and `karatsuba_square_limbs`:
+    add `z0•(1 + b)` then `z2•(b + b²)` to `out`, with `carry`/`carry2` and the three
+    `carry = carry.wrapping_add(carry2)`; `c0` is the initial carry (`ZERO` for mul, `ONE` for square).
+    Returns the buffer and the final carry (which the code drops). -/
+def kCombine (out z0 z2 : List Nat) (half size c0 : Nat) : List Nat × Nat :=
+  let a := addAt out 0 z0 c0                           -- add z0
+  let b := addAt a.1 half (z0.take half) 0             -- add z0.0 (carry2)
+  let c := addAt b.1 (half + half) (z0.drop half) (wadd a.2 b.2)   -- add z0.1
+  let d := addAt c.1 half z2 0                         -- add z2 (carry2)
+  let e := addAt d.1 size (z2.take half) 0             -- add z2.0 (carry2)
+  addAt e.1 (half + size) (z2.drop half) (wadd (wadd c.2 d.2) e.2)  -- add z2.1
+
+/-- the trailing-limb passes of `karatsuba_mul_limbs` -/
+def kTrail (out : List Nat) (size : Nat) (lhs rhs : List Nat) : List Nat :=
+  let x := lhs.take size
+  let xt := lhs.drop size
+  let yt := rhs.drop size
+  let out := if xt.isEmpty then out else
+    setRange out size (adcMulLimbs xt rhs (out.drop size)).1
+  if yt.isEmpty then out else
+    let endPos := 2 * size + yt.length
+    let r := adcMulLimbs yt x (getRange out size (endPos - size))
+    let out := setRange out size r.1
+    setRange out endPos (propCarry (out.drop endPos) r.2)
+
 /-- `karatsuba_mul_limbs(lhs, rhs, out, scratch)`: returns the `lhs.len() + rhs.len()` limbs of `out`
     (the function overwrites all of `out`).  `fuel` bounds the recursion depth (sizes halve). -/
 def karaMulLimbs : Nat → List Nat → List Nat → List Nat
@@ -155,54 +185,22 @@ def karaMulLimbs : Nat → List Nat → List Nat → List Nat
       (adcMulLimbs lhs rhs (uzero total)).1
     else
       let half := size / 2
-      let x := lhs.take size
-      let xt := lhs.drop size
-      let y := rhs.take size
-      let yt := rhs.drop size
-      let x0 := x.take half
-      let x1 := x.drop half
-      let y0 := y.take half
-      let y1 := y.drop half
-      let out := uzero total
+      let x0 := (lhs.take size).take half
+      let x1 := (lhs.take size).drop half
+      let y0 := (rhs.take size).take half
+      let y1 := (rhs.take size).drop half
       -- abs(x0 - x1), abs(y1 - y0) into scratch
       let s0 := usbb x0 x1 0
       let s1 := usbb y1 y0 0
       let sc0 := condNeg s0.1 (fromWordMask s0.2)
       let sc1 := condNeg s1.1 (fromWordMask s1.2)
       -- abs(z1) into out[half .. size+half)
-      let out := setRange out half (karaMulLimbs fuel sc0 sc1)
+      let out := setRange (uzero total) half (karaMulLimbs fuel sc0 sc1)
       let z1neg := (fromWordMask s0.2) ^^^ (fromWordMask s1.2)
       let out := setRange out 0 (condNeg (out.take (2 * size)) z1neg)
-      -- z0 into scratch; add z0•(1 + b)
-      let z0 := karaMulLimbs fuel x0 y0
-      let a := uadc (getRange out 0 size) z0 0
-      let out := setRange out 0 a.1
-      let carry := a.2
-      let a := uadc (getRange out half half) (z0.take half) 0
-      let out := setRange out half a.1
-      let carry := wadd carry a.2
-      let a := uadc (getRange out (half + half) (size - half)) (z0.drop half) carry
-      let out := setRange out (half + half) a.1
-      let carry := a.2
-      -- z2 into scratch; add z2•(b + b^2)
-      let z2 := karaMulLimbs fuel x1 y1
-      let a := uadc (getRange out half size) z2 0
-      let out := setRange out half a.1
-      let carry := wadd carry a.2
-      let a := uadc (getRange out size half) (z2.take half) 0
-      let out := setRange out size a.1
-      let carry := wadd carry a.2
-      let a := uadc (getRange out (half + size) (size - half)) (z2.drop half) carry
-      let out := setRange out (half + size) a.1
-      -- trailing limbs
-      let out := if xt.isEmpty then out else
-        setRange out size (adcMulLimbs xt rhs (out.drop size)).1
-      let out := if yt.isEmpty then out else
-        let endPos := 2 * size + yt.length
-        let r := adcMulLimbs yt x (getRange out size (endPos - size))
-        let out := setRange out size r.1
-        setRange out endPos (propCarry (out.drop endPos) r.2)
-      out
+      -- z0, z2 into scratch; add z0•(1 + b) + z2•(b + b^2); final carry dropped
+      let out := (kCombine out (karaMulLimbs fuel x0 y0) (karaMulLimbs fuel x1 y1) half size 0).1
+      kTrail out size lhs rhs
 
 /-- `karatsuba_square_limbs(limbs, out, scratch)` -/
 def karaSquareLimbs : Nat → List Nat → List Nat
@@ -215,32 +213,12 @@ def karaSquareLimbs : Nat → List Nat → List Nat
       let half := size / 2
       let x0 := limbs.take half
       let x1 := limbs.drop half
-      let out := uzero (2 * size)
       let s0 := usbb x0 x1 0
       let sc0 := condNeg s0.1 (fromWordMask s0.2)
-      -- z1 = (x0 - x1)^2 into out[half .. 3 half)
-      let out := setRange out half (karaSquareLimbs fuel sc0)
-      -- `out[i] = !out[i]` for i < 2 size
-      let out := unot out
-      let z0 := karaSquareLimbs fuel x0
-      let a := uadc (getRange out 0 size) z0 1
-      let out := setRange out 0 a.1
-      let carry := a.2
-      let a := uadc (getRange out half half) (z0.take half) 0
-      let out := setRange out half a.1
-      let carry := wadd carry a.2
-      let a := uadc (getRange out (half + half) (size - half)) (z0.drop half) carry
-      let out := setRange out (half + half) a.1
-      let carry := a.2
-      let z2 := karaSquareLimbs fuel x1
-      let a := uadc (getRange out half size) z2 0
-      let out := setRange out half a.1
-      let carry := wadd carry a.2
-      let a := uadc (getRange out size half) (z2.take half) 0
-      let out := setRange out size a.1
-      let carry := wadd carry a.2
-      let a := uadc (getRange out (half + size) (size - half)) (z2.drop half) carry
-      setRange out (half + size) a.1
+      -- z1 = (x0 - x1)^2 into out[half .. 3 half), then `out[i] = !out[i]` for i < 2 size
+      let out := unot (setRange (uzero (2 * size)) half (karaSquareLimbs fuel sc0))
+      -- carry starts at ONE to complete the wrapping negative
+      (kCombine out (karaSquareLimbs fuel x0) (karaSquareLimbs fuel x1) half size 1).1
 
 /-! ### `BoxedUint` forms (`src/uint/boxed/mul.rs`) -/
 
